@@ -19,8 +19,8 @@ from props import lib_exec as X
 from props import lib_server as L
 
 GENERATORS = ["server", "exec", "store", "pdu", "framer_tcpascii"]
-PROP_FILES = ["C09_e2e"]
-CASE_DEPS = ["theories/CorrE2E.vo"]
+PROP_FILES = ["C09_e2e", "C09_e2e_ascii"]
+CASE_DEPS = ["theories/CorrE2E.vo", "theories/CorrE2ESerial.vo"]
 TRUSTED = [
     "end-to-end composition (Props/C09_e2e.v): hand-written glue in theories/EndToEnd.v — request object -> execute "
     "attributes (req_of_obj), response -> response object (obj_of_rsp), the serving loop (one framer call per read, "
@@ -316,6 +316,123 @@ def run_real(sc):
     return b"".join(written), dumps, escaped
 
 
+# ----------------------------------------------------------------------------- serial path (sync serial handler)
+
+SERIAL_IMPORTS = ("From PM.theories Require Import Base Expr Struct FrBaseA PduSpec Store Exec ExecSpec CorrExec Server EndToEnd CorrE2E CorrE2ESerial.\n"
+                  "Open Scope string_scope.")
+SERIAL_CHK = "chk_e2e_serial"
+
+
+def gen_serial_scenario(r, framing):
+    """requests over a serial line: served units, frames for units that are not served interleaved; no tid / pid"""
+    single = r.random() < 0.4
+    cfg = {"single": single, "bcast": r.random() < 0.3, "ignore": r.random() < 0.5}
+    ids = [0] if single else list(r.choice(HOSTED))
+    units = [(u, X.gen_layout(r, shared=r.random() < 0.2)) for u in ids]
+    reqs = []
+    for _ in range(r.choice([1, 2, 2, 3, 4, 5, 6])):
+        k = r.random()
+        if k < 0.65:
+            uid = r.choice(ids) if not single else r.choice([0, 1, 1, 17, 255, r.randrange(256)])
+        elif k < 0.9:
+            uid = r.choice([0, 1, 2, 9, 33, 255])
+        else:
+            uid = r.randrange(256)
+        lay = dict(units).get(0 if single else uid, units[0][1])
+        m = gen_msg(r, lay)
+        while framing == "rtu" and m[0] == "raw":      # the RTU receiver needs a size rule: assigned codes only
+            m = gen_msg(r, lay)
+        reqs.append({"tid": 0, "pid": 0, "uid": uid, "msg": m})
+    stream = b"".join(L.adu(framing, 0, q["uid"], msg_pdu(q["msg"])) for q in reqs)
+    n = len(stream)
+    mode = r.random()
+    if mode < 0.15:
+        pts = []
+    elif mode < 0.35:
+        pts = list(range(1, n)) if n <= 60 else sorted(r.sample(range(1, n), 40))      # one-character reads
+    else:
+        pts = sorted(set(r.randrange(1, n) for _ in range(r.choice([1, 1, 2, 3, 5, 8])))) if n > 1 else []
+    chunks, prev = [], 0
+    for p_ in pts + [n]:
+        chunks.append(stream[prev:p_])
+        prev = p_
+    if r.random() < 0.15:
+        for _ in range(r.choice([1, 2])):
+            chunks.insert(r.randrange(len(chunks) + 1), b"")
+    return {"fe": "sync_serial", "framing": framing, "cfg": cfg, "units": units, "reqs": reqs,
+            "chunks": [c.hex() for c in chunks]}
+
+
+def run_real_serial(sc):
+    from pymodbus.server import sync
+    L.reset_mcb()
+    ctx, blocks = build_context(sc)
+    reads = [bytes.fromhex(c) for c in sc["chunks"]]
+    written, escaped = [], []
+    try:
+        server = L._server_ns(ctx, sc["framing"], sc["cfg"])
+        h = sync.ModbusSingleRequestHandler.__new__(sync.ModbusSingleRequestHandler)
+
+        class Port:
+            def __init__(self):
+                self.chunks = list(reads)
+
+            def recv(self, n):
+                if self.chunks:
+                    return self.chunks.pop(0)
+                h.running = False
+                return b""
+
+            def send(self, data):
+                written.append(bytes(data))
+                return len(data)
+        h.request, h.client_address, h.server = Port(), ("127.0.0.1", 5020), server
+        h.setup()
+        try:
+            h.handle()
+        except Exception as e:  # noqa: BLE001
+            escaped.append(type(e).__name__)
+        h.finish()
+    finally:
+        L.reset_mcb()
+    dumps = {u: X.dump_blocks(blocks[u]) for u, _ in sc["units"]}
+    return b"".join(written), dumps, escaped
+
+
+def serial_case_of(sc):
+    written, dumps, escaped = run_real_serial(sc)
+    reqs = lst("{| q_tid := %s; q_pid := %s; q_uid := %s; q_body := %s |}" % (
+        z(q["tid"]), z(q["pid"]), z(q["uid"]), msg_term(q["msg"])) for q in sc["reqs"])
+    term = ("{| s_kind := %s; s_fe := %s; s_cfg := %s; s_units := %s; s_reqs := %s; s_chunks := %s; "
+            "s_written := %s; s_final := %s |}") % (
+        {"ascii": "SAscii", "rtu": "SRtu"}[sc["framing"]], string(sc["fe"]), L.cfg_term(sc["cfg"]),
+        lst("(%s, %s)" % (z(u), X.layout_term(Lay)) for u, Lay in sc["units"]),
+        reqs, lst(nb(bytes.fromhex(c)) for c in sc["chunks"]), nb(written),
+        lst("(%s, %s)" % (z(u), dump_list_term(dumps[u])) for u, _ in sc["units"]))
+    desc = {"scenario": sc, "written": written.hex(), "escaped": escaped}
+    kind = "%s/%s" % (sc["framing"], "single" if sc["cfg"]["single"] else "multi")
+    return Case(term, desc, kind=kind, nontrivial=bool(written)), escaped
+
+
+SERIAL_FRAMINGS = ["ascii"]
+
+
+def serial_suites(tier):
+    out = []
+    for framing in SERIAL_FRAMINGS:
+        r = common.rng("C09.e2e_serial_" + framing)
+        n = 250 * (1 if tier == "quick" else 6)
+        cases = []
+        for _ in range(n):
+            sc = gen_serial_scenario(r, framing)
+            c, escaped = serial_case_of(sc)
+            if escaped:
+                _BROKEN.append("e2e_serial_%s: exception escaped the handler: %s %s" % (framing, escaped, sc))
+            cases.append(c)
+        out.append(Suite("e2e_serial_" + framing, SERIAL_IMPORTS, SERIAL_CHK, cases, shard=50))
+    return out
+
+
 def dump_list_term(ds):
     return lst(("DFull " + X.pairs(d[1])) if d[0] == "F" else
                ("DDigest %s %s %s" % (z(d[1]), z(d[2]), X.pairs(d[3]))) for d in ds)
@@ -355,7 +472,7 @@ def suites(tier):
                 _BROKEN.append("e2e_%s: exception escaped the front-end on well-formed traffic: %s %s" % (fe, escaped, sc))
             cases.append(c)
         out.append(Suite("e2e_" + fe, IMPORTS, CHK, cases, shard=60))
-    return out
+    return out + serial_suites(tier)
 
 
 def extra_checks(tier):
@@ -375,7 +492,11 @@ def replay_case(suite, desc):
     sc["units"] = [(u, X.norm_layout(Lay)) for u, Lay in sc["units"]]
     for q in sc["reqs"]:
         q["msg"] = tuple(q["msg"])
-    c, escaped = case_of(sc)
-    r = coqrun.eval_cases("C09_e2e_replay", IMPORTS, CHK, [c.term])
+    if suite.startswith("e2e_serial_"):
+        c, escaped = serial_case_of(sc)
+        r = coqrun.eval_cases("C09_e2e_replay", SERIAL_IMPORTS, SERIAL_CHK, [c.term])
+    else:
+        c, escaped = case_of(sc)
+        r = coqrun.eval_cases("C09_e2e_replay", IMPORTS, CHK, [c.term])
     print(json.dumps({"written": c.desc["written"], "escaped": escaped})[:1500], r)
     return bool(r["propfail"] or r["errors"] or r["disagree"])
